@@ -150,3 +150,58 @@ func c09(deadline time.Time) (int, int) {
 		}
 	}
 }
+
+func init() { Passes["C18"] = c18 }
+
+// c18: 16 goroutines compile the same corpus concurrently; every result must equal
+// the sequential one (and the race detector watches).
+func c18(deadline time.Time) (int, int) {
+	var srcs []string
+	filepath.Walk("/repo", func(p string, info os.FileInfo, err error) error {
+		if err == nil && !info.IsDir() && strings.HasSuffix(p, ".py") && !strings.Contains(p, "/.git/") {
+			if b, err := os.ReadFile(p); err == nil {
+				srcs = append(srcs, string(b))
+			}
+		}
+		return nil
+	})
+	srcs = append(srcs, "def f(a, b, c):\n    def g():\n        return (a, b, c)\n    return g\n", "x = [i for i in range(3)]\nclass C:\n    def m(self):\n        return x\n")
+	dump := func(s string) string {
+		c, err := py.Compile(s, "<c18race>", py.ExecMode, 0, true)
+		if err != nil {
+			return "error"
+		}
+		return fmt.Sprintf("%x|%v|%v|%v|%v|%d", c.Code, c.Names, c.Varnames, c.Freevars, c.Cellvars, len(c.Consts))
+	}
+	base := make([]string, len(srcs))
+	for i, s := range srcs {
+		base[i] = dump(s)
+	}
+	runs := 0
+	for round := 0; round == 0 || time.Now().Before(deadline); round++ {
+		var wg sync.WaitGroup
+		var mu sync.Mutex
+		bad := ""
+		for g := 0; g < 16; g++ {
+			wg.Add(1)
+			go func(g int) {
+				defer wg.Done()
+				for k := range srcs {
+					i := (k*7 + g*3) % len(srcs)
+					if d := dump(srcs[i]); d != base[i] {
+						mu.Lock()
+						bad = fmt.Sprintf("program %d compiled concurrently differs from its sequential compilation", i)
+						mu.Unlock()
+					}
+				}
+			}(g)
+		}
+		wg.Wait()
+		runs += 16 * len(srcs)
+		if bad != "" {
+			fmt.Fprintln(os.Stderr, "WARNING: DATA RACE (observed as a wrong result): "+bad)
+			os.Exit(66)
+		}
+	}
+	return runs, len(srcs)
+}
